@@ -9,16 +9,16 @@ ID = "C14"
 LEVEL = "exploration"
 SHARDS = {"quick": 16, "thorough": 16}
 RULE = (
-    "Reference graphs: (a) exhaustive - every digraph (self-loops included) on N <= 2 (quick) / N <= 3 (thorough) nodes x every assignment of kinds {memento, plain}, "
-    "each edge rendered as a bare-name call, plus for every graph one variant in which the edges of one node are hidden dynamic calls and one in which they sit in the argument list of a call inside an attribute chain; (b) random - Hypothesis programs of up to 8 functions in 1-2 modules "
-    "with bare-name, module-attribute, alias and functools.wraps references and hidden calls through globals()/sys.modules. Oracle: the harness' own reachability over the generated graph. "
+    "Reference graphs: (a) exhaustive - every digraph (self-loops included) on N <= 2 (quick) / N <= 3 (thorough) nodes x every assignment of kinds "
+    "{memento with automatic version, memento with explicit version, plain} (at least one automatic), each edge rendered as a bare-name call, plus for every graph one variant in which the edges of one node are hidden dynamic calls and one in which they sit in the argument list of a call inside an attribute chain; (b) random - Hypothesis programs of up to 8 functions in 1-2 modules "
+    "with bare-name, module-attribute, alias and functools.wraps references, callees invoked through a force_local() clone, and hidden calls through globals()/sys.modules (also to explicitly-versioned functions and through clones). Oracle: the harness' own reachability over the generated graph. "
     "transitive_memento_fn_dependencies == memento nodes reachable from f (through any nodes) minus f; direct_... == memento nodes named in f's own body minus f; df() == pairs (memento m -> memento m' != m) "
     "with a path from m to m' through plain nodes only, for m = f or reachable from f. Enforcement: calling f with arguments 1 and 2, the outcome is UndeclaredDependencyError iff a simulation of the execution meets a "
     "call from an automatically-versioned memento frame to a memento function that is neither in that frame's closure nor the frame itself; otherwise the value equals the un-memoized run. "
     "Non-trivial = graph with a cycle, a memento node reachable only through a plain node, or a hidden edge; distinct by graph."
 )
 ASSUMPTIONS = [
-    "generated functions are automatically versioned (an explicit version switches dependency analysis off by design)",
+    "closures are compared for automatically-versioned functions only (an explicit version switches the function's own dependency analysis off by design); explicitly-versioned memento functions do appear as graph nodes and as callees of hidden calls, and the dependency-graph edge set of a function is not compared when an explicitly-versioned function lies beneath it",
     "self-pairs are not demanded in df() (the code never links a function to itself and the property does not ask for it)",
     "all functions live in one generated package (documented scope of dependency detection)",
     "each program is imported in a fresh forked process",
@@ -41,7 +41,7 @@ def graph_program(n, kinds, edges, hidden_node=None, attrchain_node=None):
                 if attrchain_node == i:
                     call["form"] = "attrchain"
                 body = {"e": "add", "a": body, "b": call}
-        defs.append({"k": "fn", "mod": "a", "name": "f%d" % i, "memento": kinds[i] == "m", "version": None, "cluster": None,
+        defs.append({"k": "fn", "mod": "a", "name": "f%d" % i, "memento": kinds[i] in "me", "version": "v" if kinds[i] == "e" else None, "cluster": None,
                      "pdef": None, "kwdef": None, "base": {"e": "lit", "v": i + 1}, "body": body})
     return {"pkg": "vpk", "modules": ["a"], "defs": defs}
 
@@ -49,7 +49,8 @@ def graph_program(n, kinds, edges, hidden_node=None, attrchain_node=None):
 def exhaustive_cases(max_n):
     for n in range(1, max_n + 1):
         pairs = [(a, b) for a in range(n) for b in range(n)]
-        for kinds in itertools.product("mp", repeat=n):
+        # m = memento function with automatic version, e = memento function with explicit version, p = plain helper
+        for kinds in itertools.product("mpe", repeat=n):
             if "m" not in kinds:
                 continue
             for mask in range(1 << len(pairs)):
@@ -166,6 +167,9 @@ def execute(case, scratch):
         mdl, fl, succ = model(prog)
         qn = {n: _qn(prog, fl[n]) for n in fl}
         for n, m_ in mdl.items():
+            if fl[n].get("version") is not None:
+                # an explicit version switches the function's own dependency analysis off by design
+                continue
             key = "%s.%s" % (fl[n]["mod"], n)
             g = got["deps"].get(key)
             if g is None or "error" in g:
@@ -181,7 +185,10 @@ def execute(case, scratch):
                 out.violation("direct dependencies of %s: reported %r, named in its body are %r" % (n, g["direct"], want_d),
                               symptom="direct-differs", missing=bool(set(want_d) - set(g["direct"])), extra=bool(set(g["direct"]) - set(want_d)))
             gdf = sorted(e for e in g["df"] if e[0] != e[1])
-            if gdf != want_df:
+            if any(fl[t].get("version") is not None for t in m_["trans"]):
+                # the graph below an explicitly-versioned function is not demanded (its analysis is off by design)
+                out.labels.append("graph-not-compared-explicit-below")
+            elif gdf != want_df:
                 out.violation("dependency graph of %s: edges %r, expected %r" % (n, gdf, want_df), symptom="graph-differs")
         hidden_exec = False
         for mname, name in roots:
@@ -207,9 +214,9 @@ def execute(case, scratch):
         cyc = any(n in _reach_all(succ, n) for n in succ)
         via_plain = any((m_["trans"] - m_["direct"]) for m_ in mdl.values())
         out.nontrivial = cyc or via_plain or "hidden" in feats
-        out.labels = ["src:" + case.get("src", "random")] + (["cycle"] if cyc else []) + (["memento-via-plain-or-memento"] if via_plain else []) + \
+        out.labels = sorted(set(out.labels)) + ["src:" + case.get("src", "random")] + (["cycle"] if cyc else []) + (["memento-via-plain-or-memento"] if via_plain else []) + \
             (["hidden-edge"] if "hidden" in feats else []) + (["refusal-expected"] if hidden_exec else []) + \
-            ["feat:" + f for f in feats if f in ("alias-or-wrapper", "two-modules")]
+            ["feat:" + f for f in feats if f in ("alias-or-wrapper", "two-modules", "explicit-version", "hidden-to-explicit", "hidden-via-clone", "call-via-clone")]
         out.nt_key = prog
         out.render = {"src": case.get("src"), "files": {k: v[v.index("return w") + 10:] for k, v in progs.render_files(prog).items() if not k.endswith("__init__.py")}}
         return out
@@ -234,7 +241,7 @@ def replay(case, ctx):
 def strategy(thorough):
     from hypothesis import strategies as st
     return st.builds(lambda p: {"program": p, "src": "random"},
-                     progs.program_strategy(max_fns=8 if thorough else 6, allow_explicit=False, allow_cluster=True))
+                     progs.program_strategy(max_fns=8 if thorough else 6, allow_explicit=True, allow_cluster=True))
 
 
 def run_shard(ctx):
